@@ -12,6 +12,7 @@ import (
 	"strings"
 	"sync"
 
+	"github.com/gdamore/tcell/v2"
 	"github.com/gdamore/tcell/v2/terminfo"
 	_ "github.com/gdamore/tcell/v2/terminfo/base"
 	_ "github.com/gdamore/tcell/v2/terminfo/extended"
@@ -25,6 +26,7 @@ import (
 //   A <name> <aliases|-> <colors> <flags>   terminfo.AddTerminfo of a small synthetic entry (flags: t=TrueColor,
 //                                       r=all three RGB strings, f=only SetFgRGB, n=none; aliases comma separated)
 //   L <name>                           terminfo.LookupTerminfo(name)
+//   LT <name>                          tcell.LookupTerminfo(name), the root package's wrapper (same function on names the database resolves)
 //   D <name>                           database obligations of the entry registered under <name> (pristine registry)
 //   S <name> <Name>                    a shipped name (terminfo/models.txt, Name:/Aliases: of terminfo/*/*/term.go)
 //                                       must resolve to the entry called <Name>
@@ -254,6 +256,7 @@ func lkSetEnv(e lkEnv) {
 type lkOp struct {
 	kind string
 	args []string
+	root bool // "LT": the lookup goes through the root package's wrapper tcell.LookupTerminfo (what NewTerminfoScreen uses)
 }
 
 func lkParse(line string) []lkOp {
@@ -264,7 +267,11 @@ func lkParse(line string) []lkOp {
 		if len(f) == 0 {
 			continue
 		}
-		ops = append(ops, lkOp{f[0], f[1:]})
+		if f[0] == "LT" {
+			ops = append(ops, lkOp{"L", f[1:], true})
+			continue
+		}
+		ops = append(ops, lkOp{f[0], f[1:], false})
 	}
 	return ops
 }
@@ -527,7 +534,18 @@ func execLookup(line string) h.Result {
 			tag["add"] = true
 		case "L":
 			name := lkUntok(lkArg(o, 0))
-			t, _ := terminfo.LookupTerminfo(name)
+			var t *terminfo.Terminfo
+			if o.root && prisRes[i].found {
+				// the wrapper falls back to running infocmp(1) when the name is unknown: outside the model, so LT is only
+				// used for names the database resolves; with PATH emptied a (wrong) fallback fails instead of forking
+				path := os.Getenv("PATH")
+				os.Setenv("PATH", "")
+				t, _ = tcell.LookupTerminfo(name)
+				os.Setenv("PATH", path)
+				tag["root-wrapper"] = true
+			} else {
+				t, _ = terminfo.LookupTerminfo(name)
+			}
 			if t == nil {
 				obs = append(obs, "nf")
 				tag["notfound"] = true
@@ -827,6 +845,9 @@ func genLookup(g *h.Gen) {
 						if n1 == n2 && r.Chance(50) { // and back again
 							l += fmt.Sprintf("; E %s %s; L %s", lkTok(e1[0]), lkTok(e1[1]), lkTok(b+n1))
 						}
+						if (i+j)%2 == 0 { // half of them through the root package's wrapper
+							l = strings.ReplaceAll(l, "; L ", "; LT ")
+						}
 						g.Emit("%s", l)
 					}
 				}
@@ -895,6 +916,13 @@ func genLookup(g *h.Gen) {
 				ops = append(ops, "L "+lkTok(nm))
 			} else {
 				ops = append(ops, "L "+lkTok(pick()))
+			}
+		}
+		if r.Chance(35) { // through the root package's wrapper tcell.LookupTerminfo (what NewTerminfoScreen calls)
+			for j, o := range ops {
+				if strings.HasPrefix(o, "L ") && r.Chance(60) {
+					ops[j] = "LT " + o[2:]
+				}
 			}
 		}
 		g.Emit("lookup %s", strings.Join(ops, "; "))
